@@ -446,10 +446,10 @@ var solvers = []solverSpec{
 func runOne(ctx context.Context, sp solverSpec, file string, timeout time.Duration) SolverResult {
 	start := time.Now()
 	args := append([]string{}, sp.args[1:]...)
-	switch sp.name {
-	case "z3", "z3-new":
+	switch {
+	case strings.HasPrefix(sp.name, "z3"):
 		args = append(args, fmt.Sprintf("-T:%d", int(timeout.Seconds())+1))
-	case "cvc5":
+	case strings.HasPrefix(sp.name, "cvc5"):
 		args = append(args, fmt.Sprintf("--tlimit=%d", int(timeout.Milliseconds())))
 	}
 	args = append(args, file)
@@ -519,6 +519,32 @@ func raceSolvers(file string, timeout time.Duration, need int) []SolverResult {
 		if r.Status == "unsat" || r.Status == "sat" {
 			definite++
 			if definite >= need {
+				cancel()
+				break
+			}
+		}
+	}
+	if definite == 0 && need <= 1 && ctx.Err() == nil {
+		// second round: the same query under other random seeds (search-order luck should not decide a verdict)
+		extra := []solverSpec{
+			{"z3-new(seed 7)", []string{"z3-new", "-smt2", "smt.random_seed=7", "sat.random_seed=7"}},
+			{"z3-new(seed 42)", []string{"z3-new", "-smt2", "smt.random_seed=42", "sat.random_seed=42"}},
+			{"z3(seed 7)", []string{"z3", "-smt2", "smt.random_seed=7"}},
+			{"cvc5(decision=internal)", []string{"cvc5", "--lang=smt2", "--produce-models", "--decision=internal"}},
+		}
+		ch2 := make(chan SolverResult, len(extra))
+		var wg2 sync.WaitGroup
+		for _, sp := range extra {
+			wg2.Add(1)
+			go func(sp solverSpec) {
+				defer wg2.Done()
+				ch2 <- runOne(ctx, sp, file, timeout)
+			}(sp)
+		}
+		go func() { wg2.Wait(); close(ch2) }()
+		for r := range ch2 {
+			out = append(out, r)
+			if r.Status == "unsat" || r.Status == "sat" {
 				cancel()
 				break
 			}
